@@ -127,6 +127,10 @@ def make_case(rng, kind, mode, weights=None, auto_build_off=False, keep=None, ru
     if mode == "short_g" and kind.g:
         bad = (1, [rng.choice(uni.subs)])
         rows.insert(rng.randrange(len(rows) + 1), bad)
+    elif mode == "banned_g" and kind.g:
+        # a grouping row the (custom) role manager refuses with a ValueError, behind rows it accepts
+        bad = (1, [rng.choice(uni.subs), BANNED] + ([rng.choice(uni.doms)] if kind.dom else []))
+        rows.insert(rng.randrange(len(rows) // 2, len(rows) + 1), bad)
     elif mode == "bad_prio" and kind.prio:
         r = uni.p_rule(rng)
         r[0] = mgmt.ATOMS.a("x")                       # non-numeric priority next to numeric ones -> TypeError in sorted
@@ -245,7 +249,33 @@ CONFIGS = {
     "domain-matching-function": ("dom",),         # util.key_match as domain matching function of g ("*" = every domain)
     "installed-role-manager": ("rbac", "dom"),    # set_role_manager(<a manager that follows DIRECT assignments only>)
     "installed-role-manager+domain-matching-function": ("dom",),
+    # a role manager class of the application's own: clear() empties its containers IN PLACE, add_link refuses one role name
+    # with a ValueError (a validation the application added) - a failure of the link phase that is not a RuntimeError
+    "custom-role-manager": ("rbac", "dom"),
 }
+BANNED = _A("banned")
+
+
+class _InPlaceRoleManager(_drm.RoleManager):
+    def clear(self):
+        self.all_roles.clear()
+        self.all_links.clear()
+
+    def add_link(self, name1, name2, *domain):
+        if name2 == "banned":
+            raise ValueError("role 'banned' may not be assigned")
+        return super().add_link(name1, name2, *domain)
+
+
+class _InPlaceDomainManager(_drm.DomainManager):
+    def clear(self):
+        self.all_links.clear()
+        self.rm_map.clear()
+
+    def add_link(self, name1, name2, *domain):
+        if name2 == "banned":
+            raise ValueError("role 'banned' may not be assigned")
+        return super().add_link(name1, name2, *domain)
 
 
 def _configure(e, config):
@@ -254,6 +284,8 @@ def _configure(e, config):
         e.add_named_matching_func("g", _util.key_match)
     if "installed-role-manager" in config:
         e.set_role_manager(type(e.get_role_manager())(2))           # max_hierarchy_level 2: the user's direct roles only
+    if config == "custom-role-manager":
+        e.set_role_manager((_InPlaceDomainManager if isinstance(e.get_role_manager(), _drm.DomainManager) else _InPlaceRoleManager)(10))
     if "domain-matching-function" in config:
         e.add_named_domain_matching_func("g", _util.key_match)
 
@@ -390,7 +422,8 @@ def run_configured(chk, n):
             for kn in kinds:
                 kind = mgmt.KINDS[kn]
                 m = max(8, n // (3 if is_async else 1))
-                cases = [configured_case(rng, kind, config, ["short_g", "adapter", "short_g", "ok"][i % 4]) for i in range(m)]
+                modes = ["short_g", "banned_g", "adapter", "banned_g", "ok"] if config == "custom-role-manager" else ["short_g", "adapter", "short_g", "ok"]
+                cases = [configured_case(rng, kind, config, modes[i % len(modes)]) for i in range(m)]
                 mgmt.run_cases(chk, kind, cases, spec_check_configured(config, is_async),
                                label=f"fault-configured-{config}-{'async-' if is_async else ''}{kn}",
                                impl_kwargs=dict(enforcer_cls=configured_enforcer(config, is_async)), compare_model=False,
